@@ -40,6 +40,23 @@ let () = reg "C14" "AliasTest" (fun _ver args _obs ->
   let ans = run_history (z_of_int 3) Z0 fixed rep e ops in
   ok_v (string_of_int n :: List.map zs ans) ["slices"])
 
+(* AliasList <T|F> nfixed.. nrep.. exp when => digits: the digits are those given at the call, whatever the caller
+   does to its slices afterwards *)
+let alias_list prop = reg prop "AliasList" (fun _ver args obs ->
+  let a = mk args in
+  let ctor = next a in
+  let fixed = next_list a next_z in
+  let rep = next_list a next_z in
+  let e = next_z a in
+  let when_ = next_int a in
+  if obs = ["ERR"] then { model = ["digits"]; tags = []; spec = Some "valid digit lists rejected"; known = None } else
+  let n = List.length fixed + 2 * List.length rep + 3 in
+  let ops = List.init n (fun p -> HAT (O, z_of_int p)) in
+  let ans = run_history (z_of_int 3) Z0 fixed rep e ops in
+  ok_v (string_of_int n :: List.map zs ans) ["slices"; "ctor" ^ ctor; "when" ^ string_of_int when_])
+let () = alias_list "C14"
+let () = alias_list "C13"
+
 (* builder reuse: as C11 *)
 let () = (match Hashtbl.find_opt handlers "C11/Hist" with
   | Some h -> reg "C14" "Hist" (fun ver args obs -> let v = h ver args obs in { v with known = None })   (* Add(MaxInt) is C11's finding, not an aliasing matter *)
